@@ -971,6 +971,8 @@ SolverOption *SolverOptionManager::FindOption(
                     [&name_str](const std::string& syn) {
                      return 0==strcasecmp(name_str.c_str(), syn.c_str()); } ) !=
         (*i)->inline_synonyms().end()) {
+      if ((*i)->is_wildcard() && wildcardvalues)
+        return 0;     // as for the name: a wildcard pattern itself is not a key
       return *i;
     }
     /// Wildcards
